@@ -613,8 +613,15 @@ pub fn build_synth(seed: u64) -> Option<SynthArena> {
     for (k, off) in [1usize, 2, 3, 5, 6, 7].iter().enumerate() {
         put!(base + PAGE + 0x200 + 0x20 * k + off, 0x2400 + k as u32, false, 12, &mut rng);
     }
-    // last 16 bytes of the mapping
-    put!(base + 2 * PAGE - 16, 0x2200, false, 16, &mut rng);
+    // last 16 bytes of the mapping: a 10-byte slot, then a 6-byte function that ends exactly where the mapping ends
+    // (a store wider than the patch, or a patch longer than the function, runs into unmapped memory)
+    put!(base + 2 * PAGE - 16, 0x2200, false, 10, &mut rng);
+    put!(base + 2 * PAGE - 6, 0x2202, false, 6, &mut rng);
+    // functions packed tighter than 16 bytes (size-optimised code, hand-written assembly): 6-byte functions at
+    // 8-byte pitch; every other one is a target, the ones in between are never named
+    for k in 0..8usize {
+        put!(base + PAGE + 0x400 + 8 * k, 0x2600 + k as u32, false, 8, &mut rng);
+    }
     // first bytes of the mapping
     put!(base, 0x2201, false, 16, &mut rng);
     arena.protect_all(RX);
@@ -696,6 +703,11 @@ pub fn build_pool_full(seed: u64, nosynth: bool, selfcount: bool) -> Pool {
         }
         // in the packed block: slots 3 mod 4 stay untouched neighbours; everything else is a target
         if i < 64 && i % 4 == 3 && !is_bool {
+            neighbours.push((addr, id));
+            continue;
+        }
+        // the tightly packed block: odd ones are never named
+        if (0x2600..0x2608).contains(&id) && id % 2 == 1 {
             neighbours.push((addr, id));
             continue;
         }
